@@ -94,6 +94,17 @@ func checkWorld(r *seq.Run, w *world, seqn []op) {
 				r.Violation("", "probe-level", fmt.Sprintf("%s: debug event of value %d (%s): %d lines written, the derivation path's level is %v (written expected: %v)", desc(), i, o.origin, n, o.m.Level, exd.Written), desc())
 			}
 		}
+		// the sampler of the derivation path (the Sample step's sampler rejects warn events)
+		{
+			w.lines = [2][][]byte{}
+			w.w.Log.Calls, w.w.Log.Ctxs = nil, nil
+			lg.Warn().Msg("smp")
+			exw := seqx.ExpectEvent(o.m, seqx.Entry{Kind: "Warn"}, nil, seqx.Final{Kind: "Msg", Text: "smp"})
+			n := len(w.lines[0]) + len(w.lines[1])
+			if (n == 1) != exw.Written || n > 1 {
+				r.Violation("", "probe-sampler", fmt.Sprintf("%s: warn event of value %d (%s): %d lines written, sampler on the derivation path: %v (written expected: %v)", desc(), i, o.origin, n, o.m.Sampler, exw.Written), desc())
+			}
+		}
 		// marshalers reached through helpers that are not tied to a logger must see the background context
 		var seen []contextRec
 		w.seen = nil
